@@ -575,6 +575,13 @@ func runFault(w *c16world, r respScript, k int, kind stepKind, rep *lib.Report) 
 		}
 		if o.panic != nil {
 			rep.Count("aborted_mid_body")
+		} else if kind != stepStall && r.framing != "close" && len(o.body) < r.size {
+			// the backend announced how the body ends (a length, a terminating chunk) and died before that: the handler
+			// must ABORT the exchange (http.ErrAbortHandler reaching the server, which then drops the connection) - a
+			// handler that returns normally makes the server complete the response, and the client takes the
+			// truncated body for the whole one
+			rep.Violate("C16:truncated-body-delivered-as-complete:"+r.framing, fmt.Sprintf("%v: backend %s after %d of %d body bytes; the proxy handler returned normally (no abort), so the client is handed a complete-looking response with %d bytes", r, kn, len(o.body), r.size, len(o.body)), what)
+			return
 		}
 	case "after-complete-response":
 		if o.panic != nil || o.code != r.status {
